@@ -150,7 +150,8 @@ CHECKS = {
              "used solely to index a local counter array (no suit constant incl. promoted ones, match, ordering or arithmetic on the code); "
              "the seat index only enters the winner set; winner flags/count discipline (C03's rules); the unscoped evaluator covers the "
              "whole position line and moves by lexicographic successor (C04's rules); blocking between players is symmetric (C02's used-set "
-             "rule); the deck is the complement of the board whichever cards it holds and in whichever order (C02's deck rule). The metamorphic relation over whole enumerations (two runs of the pipeline) is NOT decided.",
+             "rule); the deck is the complement of the board whichever cards it holds and in whichever order (C02's deck rule); the odometer "
+             "advances the rightmost player with room (C02's odometer rule). The metamorphic relation over whole enumerations (two runs of the pipeline) is NOT decided.",
         ref="DESIGN.md §4 C11",
         note=TB + "; deck/odometer order affecting only the order of deals is assumed (C02 decides necessary conditions only).",
         technique="static analysis: typed use-site (taint) audit of Suit values and of the player position over the reachable call graph",
